@@ -446,3 +446,43 @@ class FnA:
 def block_order_positions(fa):
     """(bb, idx) positions comparable within a block; term = len(stmts)."""
     return None
+
+
+def through_aggregates(fa, pl, limit=12):
+    """Normalise a place: `_t.k` where `_t = (a, b, ..)` (tuple/array/struct aggregate, single
+    definition) becomes the k-th operand's place; references and plain copies are followed.
+    Returns an operand ({'c': place} or a constant operand)."""
+    op = {"c": pl}
+    for _ in range(limit):
+        pl = op_place(op)
+        if pl is None:
+            return op
+        projs = [e for e in pl["p"]]
+        # strip leading derefs by following the reference
+        d = fa.single_def(pl["l"])
+        if d is None or d[2] != "assign":
+            return op
+        rv = d[3]
+        lead_deref = 0
+        while lead_deref < len(projs) and projs[lead_deref] == "*":
+            lead_deref += 1
+        if rv["k"] == "ref" and lead_deref >= 1:
+            op = {"c": {"l": rv["place"]["l"], "p": list(rv["place"]["p"]) + projs[1:]}}
+            continue
+        if rv["k"] == "use" and op_place(rv["op"]) is not None:
+            src = op_place(rv["op"])
+            op = {"c": {"l": src["l"], "p": list(src["p"]) + projs}}
+            continue
+        if rv["k"] == "use" and op_const(rv["op"]) is not None and not projs:
+            return rv["op"]
+        if rv["k"] == "agg" and projs and projs[0] != "*" and "f" in projs[0]:
+            k = projs[0]["f"]
+            if k < len(rv["ops"]):
+                o = rv["ops"][k]
+                src = op_place(o)
+                if src is None:
+                    return o if len(projs) == 1 else op
+                op = {"c": {"l": src["l"], "p": list(src["p"]) + projs[1:]}}
+                continue
+        return op
+    return op
